@@ -234,7 +234,7 @@ def run(sim):
         else:
             end = sim.draw_weighted([("finish", 6), ("fail", 2), ("cancel", 2)], "end")
             length = UNKNOWN_LENGTH
-        avoid_empty = kind == "unknown" and sim.draw_bool(0.6, "avoid_empty_writes")
+        avoid_empty = kind == "unknown" and sim.draw_bool(0.15, "avoid_empty_writes")
         if avoid_empty:
             body_pieces = [p for p in body_pieces if p]
         prod = Producer(sim, length)
